@@ -391,6 +391,13 @@ func ParseFilter(value []byte, table TableName, stack *[]*Filter, options ParseO
 		return err
 	}
 
+	switch operator {
+	case ContainsNoCase, ContainsNoCaseNot:
+		// the case-insensitive substring operators compare with the lower case value
+		filter.stringVal = strings.ToLower(filter.stringVal)
+	default:
+	}
+
 	if options&ParseOptimize != 0 {
 		filter.setLowerCaseColumn()
 		col = filter.column // might have changed
